@@ -100,10 +100,58 @@ class Folder:
         self._stack.add(key)
         try:
             v = self.fold(node, owner.module, owner, {})
+            if self._mutated_in_class_body(owner, name):
+                v = self._exec_class_body(owner, name)
         finally:
             self._stack.discard(key)
         self._cache[key] = v
         return v
+
+    @staticmethod
+    def _mutated_in_class_body(owner, name):
+        """Is the class attribute touched again by class-level statements
+        (NAME.update(...), NAME[k] = v, NAME += ..., in a class-level loop)?"""
+        n_assign = 0
+        for st in owner.node.body:
+            if isinstance(st, (ast.FunctionDef, ast.AsyncFunctionDef,
+                               ast.ClassDef)):
+                continue
+            if isinstance(st, ast.Assign) and len(st.targets) == 1 and \
+                    isinstance(st.targets[0], ast.Name) and \
+                    st.targets[0].id == name:
+                n_assign += 1
+                if n_assign > 1:
+                    return True
+                continue
+            if isinstance(st, (ast.For, ast.Expr, ast.AugAssign, ast.If,
+                               ast.Assign)):
+                for x in ast.walk(st):
+                    if isinstance(x, ast.Name) and x.id == name and (
+                            isinstance(st, (ast.For, ast.Expr,
+                                            ast.AugAssign)) or
+                            isinstance(x.ctx, ast.Store)):
+                        par_is_value = isinstance(st, ast.Assign) and \
+                            isinstance(x.ctx, ast.Load)
+                        if not par_is_value:
+                            return True
+        return False
+
+    def _exec_class_body(self, owner, name):
+        """Partial evaluation of the class-level statements (no defs) up to
+        the end of the class body; -> final value of `name`."""
+        env = {}
+        stmts = [st for st in owner.node.body if not isinstance(
+            st, (ast.FunctionDef, ast.AsyncFunctionDef, ast.ClassDef)) and
+            not (isinstance(st, ast.Expr) and isinstance(
+                st.value, ast.Constant))]
+        # only statements that can matter: up to the last one mentioning name
+        last = max((i for i, st in enumerate(stmts) if any(
+            isinstance(x, ast.Name) and x.id == name for x in ast.walk(st))),
+            default=-1)
+        exec_block(self, stmts[:last + 1], env, owner.module, None)
+        if name not in env:
+            raise NotConst("%s not bound by the class body" % name)
+        return env[name]
 
     def need_module_const(self, module, name):
         try:
@@ -327,6 +375,10 @@ class Folder:
                 if k.arg == "flags":
                     flags = self.fold(k.value, module, cls, env)
             return Regex(args[0], flags)
+        if fn == "dict.fromkeys" and 1 <= len(e.args) <= 2 and \
+                not e.keywords:
+            args = [self.fold(a, module, cls, env) for a in e.args]
+            return dict.fromkeys(*args)
         if isinstance(e.func, ast.Name) and e.func.id in _SAFE_CALLS \
                 and e.func.id not in env:
             args = [self.fold(a, module, cls, env) for a in e.args]
@@ -404,6 +456,9 @@ def exec_block(folder, stmts, env, module, cls=None, budget=None):
         elif isinstance(t, ast.Attribute) and isinstance(t.value, ast.Name) \
                 and isinstance(env.get(t.value.id), ObjEnv):
             env[t.value.id][t.attr] = v
+        elif isinstance(t, ast.Subscript) and isinstance(t.value, ast.Name) \
+                and isinstance(env.get(t.value.id), (dict, list)):
+            env[t.value.id][ev(t.slice)] = v
         else:
             raise NotConst("assignment target %s" % U(t))
 
@@ -413,6 +468,28 @@ def exec_block(folder, stmts, env, module, cls=None, budget=None):
             raise NotConst("budget exhausted")
         if isinstance(st, ast.Expr):
             if isinstance(st.value, ast.Constant):
+                continue
+            v0 = st.value
+            if isinstance(v0, ast.Call) and isinstance(
+                    v0.func, ast.Name) and v0.func.id == "setattr" and \
+                    len(v0.args) == 3 and isinstance(
+                        v0.args[0], ast.Name) and isinstance(
+                            env.get(v0.args[0].id), ObjEnv):
+                # setattr(self, <folded name>, <folded value>)
+                env[v0.args[0].id][ev(v0.args[1])] = ev(v0.args[2])
+                continue
+            if isinstance(v0, ast.Call) and isinstance(
+                    v0.func, ast.Attribute) and isinstance(
+                        v0.func.value, ast.Name) and isinstance(
+                            env.get(v0.func.value.id),
+                            (dict, list, set)) and v0.func.attr in (
+                                "update", "append", "extend", "add",
+                                "setdefault", "insert", "remove", "pop",
+                                "clear", "sort", "reverse") and \
+                    not v0.keywords:
+                # a mutator of a local container: applied to the folded value
+                args = [ev(a) for a in v0.args]
+                getattr(env[v0.func.value.id], v0.func.attr)(*args)
                 continue
             try:
                 ev(st.value)
@@ -473,6 +550,11 @@ def exec_block(folder, stmts, env, module, cls=None, budget=None):
             raise _Continue()
         elif isinstance(st, ast.Pass):
             continue
+        elif isinstance(st, ast.Delete):
+            for t in st.targets:
+                for x in ast.walk(t):
+                    if isinstance(x, ast.Name):
+                        env.pop(x.id, None)
         else:
             raise NotConst("statement %s" % type(st).__name__)
     return env
@@ -492,6 +574,19 @@ def _fold_with_objs(folder, e, module, cls, env):
                     return self.class_const(cls2, e2.attr)
                 raise NotConst("attribute %s unset" % U(e2))
             return Folder._attr(self, e2, module2, cls2, env2)
+        def _call(self, e2, module2, cls2, env2):
+            if isinstance(e2.func, ast.Name) and e2.func.id == "getattr" \
+                    and len(e2.args) == 2 and isinstance(
+                        e2.args[0], ast.Name) and isinstance(
+                            env2.get(e2.args[0].id), ObjEnv):
+                obj = env2[e2.args[0].id]
+                nm = self.fold(e2.args[1], module2, cls2, env2)
+                if nm in obj:
+                    return obj[nm]
+                if cls2 is not None:
+                    return self.class_const(cls2, nm)
+                raise NotConst("attribute %s unset" % nm)
+            return Folder._call(self, e2, module2, cls2, env2)
     sub = Sub(folder.model)
     sub._cache = folder._cache
     return sub.fold(e, module, cls, env)
